@@ -200,7 +200,7 @@ func scmpChecksumOK(out []byte, al int, upper []byte) bool {
 }
 
 // maskMutable zeroes what routers legitimately rewrite in a SCION/EPIC path: CurrINF/CurrHF,
-// every SegID, the router-alert flags.
+// every SegID, the router-alert flags, reserved bits of info and hop field flags.
 func maskMutable(b []byte) []byte {
 	o := append([]byte(nil), b...)
 	if len(o) < 12 {
@@ -217,6 +217,7 @@ func maskMutable(b []byte) []byte {
 	}
 	w := binary.BigEndian.Uint32(o[off:])
 	o[off] = 0
+	o[off+1] &= 0x03 // reserved bits: every re-serialisation of the meta line (IncPath, ToDecoded) clears them
 	ninf := 0
 	nh := 0
 	for k := 0; k < 3; k++ {
@@ -232,6 +233,11 @@ func maskMutable(b []byte) []byte {
 		}
 	}
 	for i := 0; i < ninf; i++ {
+		// SetInfoField re-serialises the field: reserved flag bits and the reserved byte become 0
+		if p := off + 4 + 8*i; p < len(o) {
+			o[p] &= 0x03
+		}
+		zero(off + 4 + 8*i + 1)
 		zero(off + 4 + 8*i + 2)
 		zero(off + 4 + 8*i + 3)
 	}
@@ -307,7 +313,7 @@ func checkC09(c *c09ctx) (string, string) {
 		return "scmp-short", "SCMP message shorter than header + info block"
 	}
 	quote := rp.pld[4+ib:]
-	if len(quote) > len(at) || !bytes.Equal(quote, at[:len(quote)]) {
+	if ma := maskMutable(at); len(quote) > len(at) || !bytes.Equal(maskMutable(quote), ma[:len(quote)]) {
 		return "quote-not-prefix", "data block is not a prefix of the offending packet"
 	}
 	if mo := maskMutable(c.orig); len(quote) > len(mo) || !bytes.Equal(maskMutable(quote), mo[:len(quote)]) {
